@@ -34,6 +34,29 @@
 
 namespace xsimd
 {
+#ifdef XSIMD_VERIF
+    // Verification hook (off unless XSIMD_VERIF is defined): lets a test harness substitute the
+    // cpuid / xgetbv primitives and bypass the function-local cache of available_architectures().
+    namespace verif
+    {
+        struct cpuid_source_t
+        {
+            void (*cpuid)(int reg[4], int level, int count);
+            uint32_t (*xcr0_low)();
+        };
+        inline cpuid_source_t*& cpuid_source() noexcept
+        {
+            static cpuid_source_t* source = nullptr;
+            return source;
+        }
+        inline bool& bypass_cache() noexcept
+        {
+            static bool bypass = false;
+            return bypass;
+        }
+    }
+#endif
+
     namespace detail
     {
         struct supported_arch
@@ -127,6 +150,10 @@ namespace xsimd
                 auto get_xcr0_low = []() noexcept
                 {
                     uint32_t xcr0;
+#ifdef XSIMD_VERIF
+                    if (::xsimd::verif::cpuid_source())
+                        return ::xsimd::verif::cpuid_source()->xcr0_low();
+#endif
 
 #if defined(_MSC_VER) && _MSC_VER >= 1400
 
@@ -154,6 +181,13 @@ namespace xsimd
 
                 auto get_cpuid = [](int reg[4], int level, int count = 0) noexcept
                 {
+#ifdef XSIMD_VERIF
+                    if (::xsimd::verif::cpuid_source())
+                    {
+                        ::xsimd::verif::cpuid_source()->cpuid(reg, level, count);
+                        return;
+                    }
+#endif
 
 #if defined(_MSC_VER)
                     __cpuidex(reg, level, count);
@@ -259,6 +293,10 @@ namespace xsimd
 
     XSIMD_INLINE detail::supported_arch available_architectures() noexcept
     {
+#ifdef XSIMD_VERIF
+        if (::xsimd::verif::bypass_cache())
+            return detail::supported_arch();
+#endif
         static detail::supported_arch supported;
         return supported;
     }
